@@ -122,13 +122,18 @@ class Lemma:
 
 
 # ---------------------------------------------------------------------------
-def make_engine(exclude_ident=None, modular_keys=None):
+def make_engine(exclude_ident=None, modular_keys=None, prefer=None):
     modular = {}
     for ident, c in REGISTRY.items():
         if c.modular and (not c.variant or c.call_site) and ident != exclude_ident:
             if modular_keys is None or c.key in modular_keys:
                 if c.key not in modular or c.call_site:
                     modular[c.key] = c
+    # a contract may name the call-site variant it was written against (several variants of one function can be registered in a process)
+    for key, variant in (prefer or {}).items():
+        c = REGISTRY.get(f"{key}%{variant}")
+        if c is not None:
+            modular[key] = c
     eng = Engine(modular=modular)
     eng.loop_specs = dict(LOOPS)
     return eng
@@ -148,7 +153,7 @@ def verify_case(ident, case_index):
         return out
     out["source_hash"] = fi.source_hash()
     out["span"] = [str(source.load_module(fi.module).path), fi.span[0], fi.span[1]]
-    eng = make_engine(exclude_ident=ident, modular_keys=getattr(c, "modular_keys", None))
+    eng = make_engine(exclude_ident=ident, modular_keys=getattr(c, "modular_keys", None), prefer=getattr(c, "prefer_variants", None))
     eng.max_paths = c.max_paths
     eng.branch_timeout_ms = c.branch_timeout_ms
 
